@@ -26,7 +26,7 @@ Targets == {"put", "chunked", "post", "part"}
 Priors  == {"absent", "existing"}
 Cases   == {[t |-> t, p |-> p] : t \in Targets, p \in Priors}
 
-Digests(t) == IF t = "post" THEN {"none"} ELSE {"none", "good", "wrong", "malformed", "short", "empty"}
+Digests(t) == IF t = "post" THEN {"none"} ELSE {"none", "good", "malformed", "short", "empty"} \cup WrongDigests
 Lengths(t) == IF t = "post" THEN {"exact"}
               ELSE IF t = "chunked" THEN {"exact", "shorter", "longer"}     \* declared decoded length vs payload
               ELSE {"exact", "shorter", "longer", "missing", "negative", "nonnumeric"}
